@@ -23,7 +23,7 @@ RULE = (
     "case = one variant pair (A,B) differing in exactly one semantically relevant aspect, drawn from a finite pool "
     "(python: function body edited on disk and reloaded, captured closure value; shell with /bin/echo|printf: "
     "executable, argstr, position, sep, formatter; inputs: content, int/float/bool/str type, list vs tuple, nesting, bytes vs "
-    "str, numpy shape, dtype, content) x a Chooser-generated history of 2-8 submissions of A, B and unrelated tasks into "
+    "str, numpy shape, dtype, content, memory layout, strides) x a Chooser-generated history of 2-8 submissions of A, B and unrelated tasks into "
     "one cache root (both orders, repeats, reruns, debug worker or simulated pool).  Oracle per submission: outputs == "
     "executing now (function called / argv run directly); per pair: cache identities differ.  Non-trivial = both members "
     "were submitted and the second came after the first was cached; distinct = distinct (pair, history)."
@@ -41,7 +41,7 @@ PAIRS = [
     "py-body", "py-closure",
     "sh-executable", "sh-argstr", "sh-position", "sh-sep", "sh-formatter",
     "in-content", "in-int-float", "in-int-bool", "in-int-str", "in-list-tuple", "in-nesting", "in-bytes-str", "in-none-zero",
-    "np-shape", "np-dtype", "np-content", "np-int-vs-list",
+    "np-shape", "np-dtype", "np-content", "np-int-vs-list", "np-layout", "np-strided", "np-byteorder",
 ]
 
 
@@ -170,6 +170,11 @@ def make_pair(name, workdir):
         "np-dtype": (np.zeros(4, dtype="int32"), np.zeros(4, dtype="float32")),
         "np-content": (np.array([1, 2, 3]), np.array([1, 2, 4])),
         "np-int-vs-list": (np.array([1, 2, 3]), [1, 2, 3]),
+        # same buffer bytes, shape and dtype, different memory layout (transpose = F-contiguous view)
+        "np-layout": (np.array([[1, 2], [3, 4]]), np.array([[1, 2], [3, 4]]).T),
+        # a strided view vs a contiguous array of other content
+        "np-strided": (np.arange(8)[::2], np.arange(4)),
+        "np-byteorder": (np.array([1, 2], dtype="<i4"), np.array([1, 2], dtype=">i4")),
     }[name]
 
     def m(v):
